@@ -94,6 +94,20 @@ fn families(quick: bool) -> Vec<LmFamily> {
         offsets: vec![0.0, 2.5],
         named: false,
     });
+    // bounds that coincide with the default lower bound 0 of a standard-form column, and upper bounds of 0
+    v.push(LmFamily {
+        name: "S7-zero-bounds-n2m1",
+        n: 2,
+        m: 1,
+        doms: vec![Dom::Real(0.0, 3.0), Dom::NonNegB(0.0, 4.0), Dom::Real(-2.0, 0.0), Dom::Free, Dom::NonNeg],
+        coefs: vec![-1.0, 0.0, 1.0, 2.0],
+        rhss: vec![-2.0, 0.0, 1.0],
+        rels: vec![Rel::Le, Rel::Ge, Rel::Eq],
+        objs: vec![-1.0, 0.0, 1.0],
+        senses: vec![Sense::Min, Sense::Max],
+        offsets: vec![0.0],
+        named: false,
+    });
     if quick {
         v.push(LmFamily {
             name: "S4q-n2m2",
@@ -126,12 +140,12 @@ fn families(quick: bool) -> Vec<LmFamily> {
             name: "S5-n3m2",
             n: 3,
             m: 2,
-            doms: vec![Dom::Free, Dom::NonNeg, Dom::Real(-2.0, 3.0), Dom::Real(f64::NEG_INFINITY, 2.0)],
+            doms: vec![Dom::Free, Dom::NonNeg, Dom::Real(-2.0, 3.0)],
             coefs: vec![-1.0, 0.0, 1.0],
             rhss: vec![-2.0, 1.0],
             rels: vec![Rel::Le, Rel::Ge, Rel::Eq],
             objs: vec![-1.0, 1.0],
-            senses: vec![Sense::Min, Sense::Max],
+            senses: vec![Sense::Min],
             offsets: vec![0.0],
             named: false,
         });
@@ -141,8 +155,8 @@ fn families(quick: bool) -> Vec<LmFamily> {
             m: 3,
             doms: vec![Dom::Free, Dom::NonNeg],
             coefs: vec![-1.0, 0.0, 1.0],
-            rhss: vec![-2.0, 1.0],
-            rels: vec![Rel::Le, Rel::Eq],
+            rhss: vec![1.0],
+            rels: vec![Rel::Eq],
             objs: vec![-1.0, 1.0],
             senses: vec![Sense::Max],
             offsets: vec![0.0],
